@@ -322,13 +322,58 @@ def rule_collect_once(rep):
             "rules would be collected again)",
             node=f.node,
         )
-        r.check(
-            "production.rhs[idx] = self.terminals[rhs_elem.fqn]" in t and "self.terminals[rhs_elem.fqn] = rhs_elem" in t,
-            "terminals are unified by fqn",
-            "add_productions:terminal-unify",
-            "terminal objects are no longer unified by fqn",
-            node=f.node,
+        # decision table of the per-element branch (after a Reference was resolved)
+        loop = next(
+            (st for st in walk_no_nested(f.node) if isinstance(st, ast.For) and "enumerate(production.rhs)" in unparse(st.iter)),
+            None,
         )
+        r.need(loop is not None, "add_productions: loop over production.rhs not found")
+        disp = [st for st in loop.body if isinstance(st, ast.If) and unparse(st.test) == "isinstance(rhs_elem, Terminal)"]
+        r.need(len(disp) == 1, "add_productions: dispatch on the resolved element's kind not found")
+        atoms = Atoms()
+        atoms.add(r"isinstance\(rhs_elem, Terminal\)", lambda v, m: v["kind"] == "T")
+        atoms.add(r"isinstance\(rhs_elem, NonTerminal\)", lambda v, m: v["kind"] == "N")
+        atoms.add(r"rhs_elem\.fqn not in self\.terminals", lambda v, m: not v["reg"])
+        atoms.add(r"rhs_elem\.fqn in self\.terminals", lambda v, m: v["reg"])
+        atoms.add(r"rhs_elem\.fqn not in self\.nonterminals", lambda v, m: not v["reg"])
+        atoms.add(r"rhs_elem\.fqn in self\.nonterminals", lambda v, m: v["reg"])
+        space = [dict(kind=k, reg=b) for k in "TNO" for b in (False, True)]
+
+        def run(atom):
+            def eff(st, it):
+                return ("E", plain(st.value) if isinstance(st, ast.Expr) else plain(st))
+
+            it = Interp(atom, eff, raises=lambda st, it: None)
+            ex = it.run(disp)
+            return [e[1] for e in it.effects], ex
+
+        want = {
+            ("T", False): ["self.terminals[rhs_elem.fqn] = rhs_elem"],
+            ("T", True): ["production.rhs[idx] = self.terminals[rhs_elem.fqn]"],
+            ("N", False): ["self.productions.extend(rhs_elem.productions)", "add_productions(rhs_elem.productions)"],
+            ("N", True): ["production.rhs[idx] = self.nonterminals[rhs_elem.fqn]"],
+        }
+        what = {"T": "terminal", "N": "non-terminal", "O": "other element"}
+        for leaf in explore(run, space, atoms):
+            effs, ex = leaf.result
+            for v in leaf.valuations:
+                if v["kind"] == "O":
+                    ok = ex is not None and ex.kind == "raise"
+                    exp = "raise"
+                else:
+                    exp = want[v["kind"], v["reg"]]
+                    ok = effs == exp and (ex is None or ex.kind == "fall")
+                r.check(
+                    ok,
+                    f"element row: {what[v['kind']]}, {'already' if v['reg'] else 'not yet'} registered under its fqn",
+                    f"add_productions:element:{v['kind']}:{'registered' if v['reg'] else 'new'}",
+                    f"for a {what[v['kind']]} whose fqn is {'already' if v['reg'] else 'not yet'} registered the "
+                    f"collector does {effs or 'nothing'}{' then ' + ex.kind if ex is not None and ex.kind != 'fall' else ''}; "
+                    f"needed {exp} -- every use of a symbol must end up as the one registered object (an "
+                    "override reached over a second import path otherwise leaves the overridden symbol in some productions)"
+                    + leaf.free_text(),
+                    node=disp[0],
+                )
         o = repo.func("parglare.grammar.Grammar._add_resolve_all_production_symbols")
         t = unparse(o.node)
         r.check(
@@ -362,3 +407,6 @@ def check(rep):
     rule_register_first(rep)
     rule_resolution(rep)
     rule_collect_once(rep)
+    from .C13 import rule_fqn_format
+
+    rule_fqn_format(rep)  # helper rules of repetitions are found again under the key they were created with
